@@ -588,6 +588,207 @@ class _PartialFolder(ast.NodeTransformer):
         return node
 
 
+class _ClassToClosure:
+    """A small callable class used as a closure is rewritten back into one:
+
+        @dataclass(frozen=True)                      def factory(width, base):
+        class _W:                                        def __c1___call__(text):
+            width: int                          ->           return base(text, width)
+            base: Wrapper                                return __c1___call__
+            def __call__(self, text): return self.base(text, self.width)
+        def factory(width, base): return _W(width, base)
+
+    Conditions (else the site is left alone): the class has `__call__`, no base classes other than object / Protocol, its
+    fields are bound once (dataclass fields without __post_init__, or an __init__ made of `self.f = param` lines only), no
+    method stores to `self.<x>`, `self` is only used as `self.<field>` or `self.<method>(...)`, the constructor arguments
+    are plain names, constants or attribute chains of names that the enclosing function never rebinds, and the
+    instantiation happens inside a function. Instance identity and isinstance() of the object are not preserved - nothing
+    in the analysed rules asks for them."""
+
+    def __init__(self, repo: Repo) -> None:
+        self.repo = repo
+        self.count = 0
+        self.n = 0
+
+    def fields_of(self, ci) -> tuple[list[str], dict[str, ast.expr | None]] | None:
+        node = ci.node
+        if any(not (isinstance(b, ast.Name) and b.id in ("object", "Protocol")) for b in node.bases) or node.keywords:
+            return None
+        if "__call__" not in ci.methods or self.repo.subclasses_of(ci):
+            return None
+        decos = [ast.unparse(d) for d in node.decorator_list]
+        methods = {n.name: n for n in node.body if isinstance(n, (ast.FunctionDef,))}
+        if any(isinstance(n, (ast.AsyncFunctionDef, ast.ClassDef)) for n in node.body):
+            return None
+        for name, m in methods.items():
+            if m.decorator_list or (name.startswith("__") and name not in ("__call__", "__init__")):
+                return None
+        order: list[str] = []
+        defaults: dict[str, ast.expr | None] = {}
+        if "__init__" in methods:
+            init = methods["__init__"]
+            a = init.args
+            if a.vararg or a.kwarg or a.kwonlyargs or a.posonlyargs or not a.args:
+                return None
+            selfn = a.args[0].arg
+            params = [x.arg for x in a.args[1:]]
+            dflt = dict(zip(reversed(params), reversed(a.defaults)))
+            attr_of: dict[str, str] = {}
+            for st in init.body:
+                if isinstance(st, ast.Expr) and isinstance(st.value, ast.Constant):
+                    continue
+                tgt = st.targets[0] if isinstance(st, ast.Assign) and len(st.targets) == 1 else (st.target if isinstance(st, ast.AnnAssign) else None)
+                val = getattr(st, "value", None)
+                if not (isinstance(tgt, ast.Attribute) and isinstance(tgt.value, ast.Name) and tgt.value.id == selfn and isinstance(val, ast.Name) and val.id in params):
+                    return None
+                attr_of[val.id] = tgt.attr
+            if set(attr_of) != set(params):
+                return None
+            order = [attr_of[p_] for p_ in params]
+            defaults = {attr_of[p_]: dflt.get(p_) for p_ in params}
+            self._param_names = {attr_of[p_]: p_ for p_ in params}
+        elif any("dataclass" in d for d in decos):
+            if "__post_init__" in methods:
+                return None
+            for st in node.body:
+                if isinstance(st, ast.AnnAssign) and isinstance(st.target, ast.Name):
+                    order.append(st.target.id)
+                    defaults[st.target.id] = st.value
+                elif isinstance(st, ast.Assign):
+                    return None
+            self._param_names = {f: f for f in order}
+        else:
+            return None
+        # methods: no stores to self.x, self only as self.field / self.method(...)
+        for name, m in methods.items():
+            if name == "__init__":
+                continue
+            if not m.args.args:
+                return None
+            selfn = m.args.args[0].arg
+            for x in ast.walk(m):
+                if isinstance(x, ast.Attribute) and isinstance(x.value, ast.Name) and x.value.id == selfn:
+                    if isinstance(x.ctx, (ast.Store, ast.Del)) or (x.attr not in order and x.attr not in methods):
+                        return None
+            uses = sum(1 for x in ast.walk(m) if isinstance(x, ast.Name) and x.id == selfn)
+            attr_uses = sum(1 for x in ast.walk(m) if isinstance(x, ast.Attribute) and isinstance(x.value, ast.Name) and x.value.id == selfn)
+            if uses != attr_uses:
+                return None
+            if any(isinstance(x, (ast.FunctionDef, ast.AsyncFunctionDef, ast.Lambda, ast.ClassDef)) for x in ast.walk(m) if x is not m):
+                return None
+        return order, defaults
+
+    def convert_function(self, fi: FuncInfo) -> bool:
+        fn = fi.node
+        if isinstance(fn, ast.Lambda):
+            return False
+        stores: dict[str, int] = {}
+        for n in ast.walk(fn):
+            if isinstance(n, ast.Name) and isinstance(n.ctx, (ast.Store, ast.Del)):
+                stores[n.id] = stores.get(n.id, 0) + 1
+        changed = False
+
+        def stable(e: ast.AST) -> bool:
+            if isinstance(e, ast.Constant):
+                return True
+            if isinstance(e, ast.Name):
+                return stores.get(e.id, 0) <= 1
+            if isinstance(e, ast.Attribute):
+                return stable(e.value) and isinstance(e.value, ast.Name)
+            return False
+
+        def rewrite_block(block: list[ast.stmt]) -> list[ast.stmt]:
+            nonlocal changed
+            out: list[ast.stmt] = []
+            for st in block:
+                for fld in ("body", "orelse", "finalbody"):
+                    sub = getattr(st, fld, None)
+                    if isinstance(sub, list) and sub and isinstance(sub[0], ast.stmt) and not isinstance(st, (ast.FunctionDef, ast.AsyncFunctionDef, ast.ClassDef)):
+                        setattr(st, fld, rewrite_block(sub))
+                if isinstance(st, ast.Try):
+                    for h in st.handlers:
+                        h.body = rewrite_block(h.body)
+                if isinstance(st, (ast.Assign, ast.AnnAssign, ast.Return, ast.Expr)) and getattr(st, "value", None) is not None:
+                    pre: list[ast.stmt] = []
+                    for call in [x for x in walk_no_nested(st.value) if isinstance(x, ast.Call)]:
+                        ci = self.repo.resolve_expr(call.func, fi.module, fi) if isinstance(call.func, (ast.Name, ast.Attribute)) else None
+                        from .loader import ClassInfo
+                        if not isinstance(ci, ClassInfo) or ci.module.name.split(".")[0] != fi.module.name.split(".")[0]:
+                            continue
+                        fo = self.fields_of(ci)
+                        if fo is None:
+                            continue
+                        order, defaults = fo
+                        if any(isinstance(a, ast.Starred) for a in call.args) or any(k.arg is None for k in call.keywords) or len(call.args) > len(order):
+                            continue
+                        pn = self._param_names
+                        bound: dict[str, ast.expr] = {}
+                        for f_, a in zip(order, call.args):
+                            bound[f_] = a
+                        ok = True
+                        for k in call.keywords:
+                            f_ = next((f2 for f2 in order if pn[f2] == k.arg), None)
+                            if f_ is None or f_ in bound:
+                                ok = False
+                                break
+                            bound[f_] = k.value
+                        for f_ in order:
+                            if f_ not in bound:
+                                d = defaults.get(f_)
+                                if d is None or not isinstance(d, ast.Constant):
+                                    ok = False
+                                    break
+                                bound[f_] = d
+                        if not ok or not all(stable(v) for v in bound.values()):
+                            continue
+                        self.n += 1
+                        tag = f"_c{self.n}_"
+                        methods = {n.name: n for n in ci.node.body if isinstance(n, ast.FunctionDef) and n.name != "__init__"}
+                        # private methods first, __call__ last
+                        for name in sorted(methods, key=lambda nm: nm == "__call__"):
+                            m = clone(methods[name])
+                            selfn = m.args.args[0].arg
+                            m.args.args = m.args.args[1:]
+                            m.name = tag + name
+                            m.decorator_list = []
+
+                            class _Sub(ast.NodeTransformer):
+                                def visit_Attribute(s2, node: ast.Attribute) -> ast.AST:  # noqa: N805
+                                    s2.generic_visit(node)
+                                    if isinstance(node.value, ast.Name) and node.value.id == selfn:
+                                        if node.attr in bound:
+                                            return ast.copy_location(clone(bound[node.attr]), node)
+                                        if node.attr in methods:
+                                            return ast.copy_location(ast.Name(id=tag + node.attr, ctx=ast.Load()), node)
+                                    return node
+
+                            m = _Sub().visit(m)
+                            # a parameter or local of the method that shadows a substituted name would capture it
+                            local = _local_names(m)
+                            free_new = {x.id for v in bound.values() for x in ast.walk(v) if isinstance(x, ast.Name)}
+                            if local & free_new:
+                                ok = False
+                                break
+                            pre.append(ast.copy_location(m, st))
+                        if not ok:
+                            continue
+                        new_name = ast.copy_location(ast.Name(id=tag + "__call__", ctx=ast.Load()), call)
+                        for parent_node in ast.walk(st):
+                            for fld, val in ast.iter_fields(parent_node):
+                                if val is call:
+                                    setattr(parent_node, fld, new_name)
+                                elif isinstance(val, list) and any(v is call for v in val):
+                                    setattr(parent_node, fld, [new_name if v is call else v for v in val])
+                        changed = True
+                        self.count += 1
+                    out.extend(pre)
+                out.append(st)
+            return out
+
+        fn.body = rewrite_block(fn.body)
+        return changed
+
+
 def build_inlined_repo(root=None, keep: set[str] | None = None) -> tuple[Repo, dict[str, int]]:
     """A second Repo whose functions have their private helpers inlined (ASTs mutated in place on a private parse,
     original line numbers kept on every statement)."""
@@ -605,6 +806,14 @@ def build_inlined_repo(root=None, keep: set[str] | None = None) -> tuple[Repo, d
         if pf.partials:
             pf.visit(fi.node)
             unrolled += pf.count
+    c2c = _ClassToClosure(work)
+    for fi in list(work.functions.values()):
+        if fi.cls is None or fi.name != "__call__":  # (a method body is not a place where closures are made here)
+            try:
+                c2c.convert_function(fi)
+            except RecursionError:  # pragma: no cover
+                pass
+    unrolled += c2c.count
     if unrolled:
         for mod in work.modules.values():
             ast.fix_missing_locations(mod.tree)
